@@ -216,6 +216,185 @@ def reinit_case(rnd):
             'meta': {'segs': meta}}
 
 
+# ---- far-offset streams (verification hook crypto_aesctr_verif_seek) -----------
+# Boundaries B = 2^e of the block counter.  2^64 is deliberately absent: the
+# statement numbers blocks with a 64-bit index (nothing is said about block
+# 2^64), and the library keeps a 64-bit BYTE position, so that a stream ends
+# at 2^64 bytes = block 2^60; every case here stays below that.
+FAR_EXPS = [8, 16, 24, 32, 40, 48, 56]
+FAR_DS = [0, 1, 2, 3, 17, 100, 255, 256, 300]
+FAR_KINDS = ['bulk-cross', 'sub-cross', 'bulk-then-sub', 'sub-then-bulk', 'cuts-zero']
+FAR_LIMIT = 1 << 60         # first block the 64-bit byte position cannot reach
+
+
+def sub_calls(rnd, total):
+    """Calls of 0..15 bytes (0-length calls included) that cover `total` bytes."""
+    parts, left = [], total
+    while left > 0:
+        c = min(left, rnd.choice([0, 1, 2, 3, 5, 7, 8, 9, 11, 13, 15, 15, rnd.randrange(16)]))
+        parts.append(c)
+        left -= c
+    return parts
+
+
+def far_reach(rnd, target):
+    """A few calls that move a stream from offset 0 to offset `target`."""
+    if target == 0:
+        return rnd.choice([[], [], [0]])
+    if target < 16:
+        return rnd.choice([[target], sub_calls(rnd, target)])
+    k = rnd.randrange(4)
+    if k == 0 or target < 33:
+        return [target]
+    if k == 1:                          # sub-block call first: the bulk call starts mid-block
+        h = rnd.randrange(1, 16)
+        return [h, target - h]
+    if k == 2:                          # two bulk calls
+        a = rnd.randrange(16, target - 15)
+        return [a, target - a]
+    h = 16 * rnd.randrange(1, target // 16)
+    return [h, 0, target - h]
+
+
+def far_tail(rnd):
+    t = sub_calls(rnd, 16 * rnd.randrange(1, 4) + rnd.randrange(16))
+    k = rnd.randrange(3)
+    if k == 0:
+        t += [rnd.randrange(16, 200)] + sub_calls(rnd, rnd.randrange(1, 30))
+    elif k == 1:
+        t += [16 * rnd.randrange(1, 12)]
+    return t + [0, rnd.randrange(1, 40)]
+
+
+def far_plan(rnd, d, kind):
+    """Call sizes for a stream that starts d blocks before a boundary B of the
+    block counter (B is at byte offset c = 16*d of the data).
+    -> (parts, index of the call that matters, or -1)."""
+    r = rnd.randrange
+    c = 16 * d
+    if kind == 'bulk-cross':
+        # ONE call of >= 16 bytes whose whole blocks lie on both sides of B
+        if d == 0:
+            pre = rnd.choice([[], [], [0]])
+        elif d == 1:
+            pre = rnd.choice([[], [], [], [0], [r(1, 16)]])
+        else:
+            a = rnd.choice([0, 0, 0, r(1, 16), 16 * r(0, d - 1) + rnd.choice([0, 0, r(16)])])
+            pre = far_reach(rnd, a) if a else rnd.choice([[], [0]])
+        beyond = rnd.choice([1, 1, 2, r(1, 40)])
+        parts = pre + [c - sum(pre) + 16 * beyond + rnd.choice([0, 0, r(16)])]
+        at = len(parts) - 1
+        return parts + far_tail(rnd), at
+    if kind == 'sub-cross':
+        # calls of < 16 bytes from a few blocks before B to a few blocks behind it
+        s = max(0, c - 16 * r(1, 4) - r(16))
+        parts = far_reach(rnd, s)
+        at = len(parts)
+        parts += sub_calls(rnd, c - s + 16 * r(1, 4) + r(16))
+        return parts + rnd.choice([[], [r(16, 300)], far_tail(rnd)]), at
+    if kind == 'bulk-then-sub':
+        # a bulk call ENDS exactly at B (d = 0: the freshly positioned stream
+        # is in that state), sub-block calls continue
+        if d == 0:
+            parts = rnd.choice([[], [0]])
+        elif d == 1:
+            parts = rnd.choice([[16], [0, 16]])
+        else:
+            a = rnd.choice([0, 0, r(1, 16), 16 * r(0, d - 1) + rnd.choice([0, r(16)])])
+            parts = far_reach(rnd, a)
+            parts.append(c - sum(parts))
+        at = len(parts) - 1
+        parts += rnd.choice([[], [0]]) + sub_calls(rnd, 16 * r(2, 6) + r(16))
+        return parts + rnd.choice([[], [r(16, 300)], far_tail(rnd)]), at
+    if kind == 'sub-then-bulk':
+        # sub-block calls END exactly at B, a bulk call starts there
+        s = max(0, c - 16 * r(1, 4) - rnd.choice([0, 0, r(16)]))
+        parts = far_reach(rnd, s) + sub_calls(rnd, c - s) + rnd.choice([[], [], [0]])
+        at = len(parts)
+        parts.append(rnd.choice([16, 17, 32, 16 * r(1, 40) + r(16), 16 * r(1, 40)]))
+        return parts + far_tail(rnd), at
+    assert kind == 'cuts-zero'
+    # cuts one byte / one block before, at and behind B, 0-length calls between
+    total = c + 16 * r(3, 8) + r(16)
+    cuts = set(c + x for x in (-33, -17, -16, -15, -1, 0, 1, 15, 16, 17, 32) if rnd.random() < 0.6)
+    if rnd.random() < 0.7:
+        cuts.add(c)
+    pts = sorted(x for x in cuts if 0 < x < total)
+    parts, prev = [], 0
+    for x in pts + [total]:
+        parts.append(x - prev)
+        if x == c or rnd.random() < 0.3:
+            parts.append(0)
+        prev = x
+    if c == 0 and rnd.random() < 0.5:
+        parts.insert(0, 0)
+    return parts, -1
+
+
+def far_big_plan(rnd, B):
+    """-> (start block, parts, index of the long call): ONE call of 300..1300
+    whole blocks that starts just before block B-256 and runs across B-256 and
+    B (and B+256... when long enough): the low counter byte wraps at least
+    twice inside the call and the second wrap carries into every byte up to
+    the one that B names."""
+    r = rnd.randrange
+    e = rnd.choice([1, 1, 2, 3, 5, 17, 40])
+    start = max(0, B - 256 - e)
+    e = B - 256 - start
+    pre = rnd.choice([[], [], [0], [r(1, 16)], [5, 11], [16]]) if e > 1 else \
+        rnd.choice([[], [0], [r(1, 16)]] if e == 1 else [[], [0]])
+    used = (sum(pre) + 15) // 16
+    nb = r(max(300, 256 + e - used + 1), 1301)
+    parts = pre + [(16 - sum(pre) % 16) % 16 + 16 * nb + rnd.choice([0, r(16)])]
+    at = len(parts) - 1
+    return start, parts + far_tail(rnd), at
+
+
+def far_items(reps):
+    """The (exponent, d, kind) grid, `reps` times; 'big-bulk' entries carry d = None."""
+    items = []
+    for rep in range(reps):
+        for e in FAR_EXPS:
+            for d in FAR_DS:
+                if d > (1 << e):
+                    continue
+                for kind in FAR_KINDS:
+                    items.append((e, d, kind, rep))
+            items.append((e, None, 'big-bulk', rep))
+    return items
+
+
+def far_stream(rnd, item):
+    """-> dict(exp, d, kind, start, parts, at, n) for one grid item."""
+    e, d, kind, _ = item
+    B = 1 << e
+    if kind == 'big-bulk':
+        start, parts, at = far_big_plan(rnd, B)
+    else:
+        start = B - d
+        parts, at = far_plan(rnd, d, kind)
+    n = sum(parts)
+    assert start + (n + 15) // 16 < FAR_LIMIT
+    return {'exp': e, 'd': B - start, 'kind': kind, 'start': start, 'parts': parts or [0],
+            'at': at, 'n': n}
+
+
+def far_case(rnd, item):
+    f = far_stream(rnd, item)
+    key = rand_key(rnd)
+    nonce = rand_nonce(rnd)
+    data = rbytes(rnd, f['n'])
+    flags = rnd.choice('ia') + rnd.choice(['', 'p']) + rnd.choice(['', '', 'x']) + \
+        rnd.choice(['', '', 't'])
+    return {'kind': 'ctr-far', 'expect': '', 'nt': True,
+            'line': 'F %s %s %d %d %s %s' % (flags, key.hex(), nonce, f['start'], core.hx(data),
+                                             pstr(f['parts'])),
+            'sig': sig('F', f['exp'], f['d'], f['kind'], len(key), flags, len(f['parts'])),
+            'meta': {'segs': [{'key': key.hex(), 'nonce': nonce, 'data': core.hx(data),
+                               'start': f['start']}],
+                     'far': '2^%d-%d %s' % (f['exp'], f['d'], f['kind'])}}
+
+
 def rle(parts):
     """Compress runs of equal call sizes into NxM tokens."""
     out = []
@@ -334,7 +513,7 @@ def long_cases(seed, tier):
     return out
 
 
-def gen_cases(seed, tier):
+def gen_cases(seed, tier, shard=0, nshards=1):
     rnd = random.Random(seed)
     scale = 1 if tier == 'quick' else 40
     cases = [{'kind': 'intr', 'line': 'I', 'expect': '', 'sig': 0, 'nt': False}]
@@ -357,6 +536,11 @@ def gen_cases(seed, tier):
                           'sig': sig('S', len(key), st, n),
                           'meta': {'segs': [{'key': key.hex(), 'nonce': nonce,
                                              'data': core.hx(data)}]}})
+    # far-offset streams: this shard's share of the (boundary, d, kind) grid
+    frnd = random.Random(seed ^ 0xFA2)
+    for i, item in enumerate(far_items(1 if tier == 'quick' else 12)):
+        if i % nshards == shard:
+            cases.append(far_case(frnd, item))
     return cases
 
 
@@ -398,10 +582,16 @@ def judge(c, ans):
     for i, seg in enumerate(segs):
         lib, ref, twice, ow, im, fd, plain = t[7 * i:7 * i + 7]
         where = 'segment %d of %d (key %s, nonce %d)' % (i + 1, len(segs), seg['key'], seg['nonce'])
+        start = seg.get('start', 0)
+        if 'start' in seg:
+            where = 'stream moved to block %d = %s with crypto_aesctr_verif_seek, calls %s (key ' \
+                '%s, nonce %d)' % (start, c['meta'].get('far', '?'), c['line'].split()[-1][:80],
+                                   seg['key'], seg['nonce'])
         if lib != ref:
-            return ('oracle:' + kind, '%s: output differs from AES-CTR model at stream offset %s '
+            return ('oracle:' + kind, '%s: output differs from AES-CTR model at data offset %s '
                     '(block %s): library %s, model %s' % (
-                        where, fd[3:], int(fd[3:]) // 16 if fd[3:].lstrip('-').isdigit() else '?',
+                        where, fd[3:],
+                        start + int(fd[3:]) // 16 if fd[3:].lstrip('-').isdigit() else '?',
                         short(lib), short(ref)))
         if ow != 'ow=0':
             return ('oracle:overwrite', '%s: %s bytes behind the end of a call changed' % (where, ow))
@@ -421,8 +611,10 @@ OPENSSL = shutil.which('openssl')
 
 def openssl_ctr_result(key, nonce, seg):
     """repr_result of AES-CTR(key, nonce) over the segment's plaintext,
-    computed by `openssl enc` (counter block = be64(nonce) || be64(0))."""
-    iv = nonce.to_bytes(8, 'big') + bytes(8)
+    computed by `openssl enc` (first counter block = be64(nonce) || be64(start
+    block); the streams here never reach block 2^64, where openssl would carry
+    into the nonce half)."""
+    iv = nonce.to_bytes(8, 'big') + seg.get('start', 0).to_bytes(8, 'big')
     cmd = [OPENSSL, 'enc', '-aes-%d-ctr' % (8 * len(key)), '-K', key.hex(), '-iv', iv.hex()]
     if 'data' in seg or seg['len'] <= (4 << 20):
         pt = seg_plain(seg)
@@ -505,8 +697,10 @@ def run_cases(exes, cases, so_every, timeout=900):
     """Run the same cases through every build; returns a shard result."""
     res = {'evals': 0, 'sigs': set(), 'alarms': [], 'stats': {}, 'intr': {}, 'harness': [],
            'samples': []}
+    answered = []
     for bname, exe in exes:
         answers = {}
+        answered.append(answers)
 
         def j(c, ans, answers=answers):
             answers[c['idx']] = ans
@@ -532,19 +726,26 @@ def run_cases(exes, cases, so_every, timeout=900):
                 continue
             k = 'cases_%s_%s' % (c['kind'], bname)
             res['stats'][k] = res['stats'].get(k, 0) + 1
-            if so_every and (i % so_every == 1 or c['kind'] == 'ctr-long' or c.get('expect')):
+            if so_every and (i % so_every == 1 or c['kind'] == 'ctr-long' or c.get('expect') or
+                             (c['kind'] == 'ctr-far' and i % 4 == 1)):
                 n, prob = second_opinion(c, a)
                 res['stats']['reference_answers_recomputed_with_openssl_cmd'] = \
                     res['stats'].get('reference_answers_recomputed_with_openssl_cmd', 0) + n
                 if prob:
                     res['harness'].append(prob)
     res['samples'] = [c['line'][:240] for c in cases if c['kind'] in ('ctr', 'ctr-reinit')][:2]
+    far = [c for c in cases if c['kind'] == 'ctr-far']
+    res['far'] = [c['meta']['far'] for i, c in enumerate(cases)
+                  if c['kind'] == 'ctr-far' and all(i in a for a in answered)]
+    res['samples'] += ['%s: F %s <key> %s %s <%d bytes> %s' % (
+        c['meta']['far'], t[1], t[3], t[4], len(t[5]) // 2, t[6][:120])
+        for c in far[:2] for t in [c['line'].split()]]
     return res
 
 
 def _shard(a):
-    exes, seed, tier = a
-    return run_cases(exes, gen_cases(seed, tier), 40)
+    exes, seed, tier, i, n = a
+    return run_cases(exes, gen_cases(seed, tier, i, n), 40)
 
 
 def _long(a):
@@ -570,7 +771,7 @@ def run(ctx):
     # one pool for everything: the long streams run beside the shards
     # (each long case runs on both builds; split per build for balance)
     tasks = [('L', ([e], c)) for c in longs for e in exes] + \
-            [('S', (exes, seeds[i], ctx.tier)) for i in range(n)]
+            [('S', (exes, seeds[i], ctx.tier, i, n)) for i in range(n)]
     res = core.pmap(_task, tasks)
     core.merge(ctx, res)
     for r in res:
@@ -597,6 +798,28 @@ def run(ctx):
     if not have_aes:
         ctx.assumptions.append('host CPU lacks AES-NI: only the OpenSSL/portable path was executed')
     ctx.count('long_streams', len(longs))
+    # far-offset streams that were answered (each runs on every build)
+    far = [f for r in res for f in r.get('far', [])]
+    per_b, per_k = {}, {}
+    for f in far:
+        b, k = f.split(' ')
+        b = b.split('-')[0]
+        per_b[b] = per_b.get(b, 0) + 1
+        per_k[k] = per_k.get(k, 0) + 1
+    ctx.count('far_offset_streams', len(far))
+    ctx.count('far_offset_boundaries_covered', len(per_b))
+    ctx.cov['far_offset'] = {
+        'hook': 'crypto_aesctr_verif_seek (crypto/crypto_aesctr.c, LIBCPERCIVA_VERIF)',
+        'streams_per_boundary': {b: per_b[b] for b in sorted(per_b, key=lambda x: int(x[2:]))},
+        'streams_per_kind': per_k, 'start_offsets_d': FAR_DS,
+        'excluded': 'block 2^64 (not named by the statement) and everything from block 2^60 on '
+                    '(64-bit byte position of the library ends there)'}
+    if len(per_b) != len(FAR_EXPS) or set(per_k) != set(FAR_KINDS + ['big-bulk']):
+        ctx.note_inconclusive('far-offset streams did not cover every boundary and kind: %r %r'
+                              % (sorted(per_b), sorted(per_k)))
+    for r in res[-n:][:2]:
+        for smp in r['samples'][2:3]:
+            ctx.add_sample(smp)
     ctx.cov['rule'] = (
         'cases = (key 128/256, block) and (key, nonce, data, partition into crypto_aesctr_stream '
         'calls, API flags: init | alloc+init2 | buf, in-place, exact per-call heap blocks, '
@@ -604,17 +827,36 @@ def run(ctx):
         'objects (2-4 segments, new key / NULL key, mid-block and >256-block predecessors); long '
         'streams of >300 and >70,000 blocks (thorough: 2^24) with planned calls around blocks '
         '255/256/65535/65536 (span, cuts at -1/0/+1, short calls across, bulk->short and '
-        'short->bulk hand-over); all cases run on the AES-NI build and on the build without CPU '
+        'short->bulk hand-over); far-offset streams: directly after crypto_aesctr_init / _init2 the '
+        'stream is moved with the LIBCPERCIVA_VERIF hook crypto_aesctr_verif_seek to block 2^e - d '
+        'for every e in {' + ', '.join(map(str, FAR_EXPS)) + '} and d in {' +
+        ', '.join(map(str, FAR_DS)) + '} (d <= 2^e), and for each (e, d) the calls cross block '
+        '2^e in 5 ways: ONE bulk call (>= 16 bytes, whole blocks on both sides; started at the '
+        'seek point, after a sub-block call, or after other calls), calls of 0..15 bytes across it, '
+        'a bulk call ending exactly at 2^e followed by sub-block calls, sub-block calls ending '
+        'exactly at 2^e followed by a bulk call, cuts at -17/-16/-1/0/+1/+16/+17 bytes with '
+        '0-length calls in between; plus per e ONE call of 300..1300 whole blocks that starts just '
+        'before block 2^e - 256 and runs across 2^e - 256 and 2^e; flags in-place / two buffers / '
+        'exact per-call heap blocks / encrypt-again (second object moved to the same block, one '
+        'call); the expected bytes are the model at the absolute block index (refaes; every 4th '
+        'recomputed by `openssl enc -aes-*-ctr -iv be64(nonce)||be64(start block)`); '
+        'all cases run on the AES-NI build and on the build without CPU '
         'features.  non-trivial = block case, or stream with >= 2 calls that straddles a block '
         'boundary or has >= 32 bytes; distinct = distinct (build, key size, flags, length, '
-        'partition shape)')
+        'partition shape; far-offset: boundary exponent, d, crossing kind, flags, number of calls)')
     ctx.cov['sanitizers'] = 'gcc -fsanitize=address,undefined; exact-size heap blocks for keys, blocks, per-call buffers'
     ctx.assumptions += [
         'refaes.c implements FIPS-197 (self-checked on the appendix A/B/C vectors and SP 800-38A '
         'F.5.1/F.5.5 at every driver start; sampled answers and all long streams recomputed with '
         'the openssl command)' if OPENSSL else
         'refaes.c implements FIPS-197 (self-checked at driver start; openssl command not found, no second opinion)',
-        'carries above block 2^16 are executed in the thorough tier only (one 2^24-block stream per key size and build)']
+        'carries above block 2^16 are reached through the verification hook crypto_aesctr_verif_seek '
+        '(crypto/crypto_aesctr.c under LIBCPERCIVA_VERIF), which sets bytectr and the counter block '
+        'to the state after n whole blocks; a stream that really runs from block 0 across 2^24 is '
+        'executed in the thorough tier only (one per key size and build), none across 2^32 or above',
+        'streams end before block 2^60: the library keeps a 64-bit byte position (2^64 bytes = 2^60 '
+        'blocks) and the statement a 64-bit block index; what happens at block 2^64 is not stated '
+        'and not exercised']
 
 
 def _task(t):
